@@ -160,6 +160,8 @@ func init() {
 		Rules: []*core.Rule{
 			{ID: "C19.R1", Title: "every Code implementation with a child `value` Code calls value.Filter in its Filter method", Covers: "sub-queries apply through pointers, slices, arrays and maps", Min: 4, Run: c19r1},
 			{ID: "C13.R2", Title: "marshaler helper twins take the same decisions, including SetFieldQueryToContext (shared with C13)", Covers: "context-aware marshalers see the query of their own field in every variant", Min: 2, Run: c13r2},
+			{ID: "C19.R4", Title: "every SetFieldQueryToContext in the encoder and the interpreters hands on the current opcode's FieldQuery, and each interpreter compiles the dynamic value of an interface under that sub-query (installed under the FieldQueryOption flag only, context restored right after)", Covers: "recursively through sub-queries ... interfaces and context-aware marshalers", Min: 10, Run: c19r4},
+			{ID: "C19.R5", Title: "for each Code type whose Filter rebuilds part of the receiver (fields, value), every return of its ToOpcode/ToAnonymousOpcode is reached only after reading that part, so a filtered Code cannot compile to the unfiltered program", Covers: "recursively through sub-queries, pointers, slices, maps", Min: 8, Run: c19r5},
 			{ID: "C19.R3", Title: "getFilteredCodeSetIfNeeded looks up and stores the filtered program under the same key expression, stores the program compiled from codeSet.Code.Filter(query), and returns early without ContextOption", Covers: "a query never affects encodings made with another query or with none", Min: 4, Run: c19r3},
 			{ID: "C14.R2", Title: "the type cache slot only receives the program compiled for the type (shared with C14)", Covers: "a filtered program never replaces the unfiltered one", Configs: []string{"default", "race"}, Min: 8, Run: c14r2},
 			{ID: "C11.R4", Title: "Filter/ToOpcode do not modify the cached Code tree (shared with C11)", Covers: "filtering for one query does not change the next", Min: 20, Run: c11r4},
